@@ -22,6 +22,7 @@ type ESpec struct {
 	Seed    uint8 `json:"s"`
 	CP      bool  `json:"cp,omitempty"`
 	Cfg     bool  `json:"cfg,omitempty"`
+	Ty      uint8 `json:"ty,omitempty"` // raft.LogType (0 command, 1 noop, 4 barrier, 5 configuration)
 }
 
 type HOp struct {
@@ -55,6 +56,9 @@ type ClusterCase struct {
 func genESpec(t *rapid.T, cpProb int) ESpec {
 	e := ESpec{DataLen: rapid.SampledFrom([]int{0, 1, 2, 5, 16, 40}).Draw(t, "dl"), Seed: uint8(rapid.IntRange(0, 255).Draw(t, "seed"))}
 	e.CP = rapid.IntRange(0, 99).Draw(t, "cp") < cpProb
+	if !e.CP {
+		e.Ty = rapid.SampledFrom([]uint8{0, 0, 0, 0, 1, 4, 5, 5}).Draw(t, "ty")
+	}
 	return e
 }
 
@@ -86,8 +90,11 @@ func genHistory(t *rapid.T, maxOps int) ClusterCase {
 			c.Ops = append(c.Ops, op)
 		case k < 82:
 			c.Ops = append(c.Ops, HOp{K: "elect", Node: rapid.IntRange(0, c.N-1).Draw(t, "node")})
-		case k < 92:
+		case k < 89:
 			c.Ops = append(c.Ops, HOp{K: "restart", Node: rapid.IntRange(0, c.N-1).Draw(t, "node")})
+		case k < 93:
+			// the node's underlying store rejects its next StoreLogs (nothing written); raft retries
+			c.Ops = append(c.Ops, HOp{K: "failstore", Node: rapid.IntRange(0, c.N-1).Draw(t, "node")})
 		default:
 			c.Ops = append(c.Ops, HOp{K: "headtrunc", Node: rapid.IntRange(0, c.N-1).Draw(t, "node"), Keep: rapid.IntRange(0, 6).Draw(t, "keep")})
 		}
@@ -132,7 +139,7 @@ func (s *sim) close() {
 }
 
 func (e ESpec) mk(idx, term uint64) *raft.Log {
-	l := &raft.Log{Index: idx, Term: term, Type: raft.LogCommand}
+	l := &raft.Log{Index: idx, Term: term, Type: raft.LogType(e.Ty)}
 	if e.Cfg && idx == 1 {
 		l.Type = raft.LogConfiguration
 	}
@@ -381,6 +388,12 @@ func (s *sim) run() *common.Failure {
 			i := op.Node % s.c.N
 			s.nodes[i].Restart()
 			s.nodeEv[i]["restart"] = true
+		case "failstore":
+			i := op.Node % s.c.N
+			s.nodes[i].rest.mu.Lock()
+			s.nodes[i].rest.failStores = 1
+			s.nodes[i].rest.mu.Unlock()
+			s.cls["store-failure-armed"] = true
 		case "headtrunc":
 			i := op.Node % s.c.N
 			n := s.nodes[i]
